@@ -8,6 +8,7 @@ import (
 	"os"
 	"regexp"
 	"runtime"
+	"runtime/pprof"
 	"strings"
 	"time"
 
@@ -82,7 +83,13 @@ func main() {
 	noPre := flag.Bool("nopresolve", false, "send every query to the SMT solver")
 	paramStr := flag.String("params", "", "harness parameters name=int,...")
 	repoPrefix := flag.String("repoprefix", "cuelang.org/go", "import path prefix of the code under test")
+	cpuprof := flag.String("cpuprofile", "", "write CPU profile")
 	flag.Parse()
+	if *cpuprof != "" {
+		f, _ := os.Create(*cpuprof)
+		pprof.StartCPUProfile(f)
+		defer pprof.StopCPUProfile()
+	}
 
 	res := output{Pkg: *pkgPat, Solver: *solverCmd, GoVer: runtime.Version()}
 	fail := func(err error) {
@@ -265,6 +272,12 @@ func main() {
 		}
 	}
 	writeOut(*out, &res)
+	pprof.StopCPUProfile()
+	if *cpuprof != "" {
+		f, _ := os.Create(*cpuprof + ".mem")
+		pprof.Lookup("allocs").WriteTo(f, 0)
+		f.Close()
+	}
 	os.Exit(exit)
 }
 
